@@ -46,6 +46,27 @@ fn main() {
             let code = engine::run_property(&p, tier, engine::default_seed(), args.get(4).map(|s| s.as_str()));
             std::process::exit(code);
         }
+        "gen-fuzz-corpus" => {
+            // verif gen-fuzz-corpus <target> <dir>: deterministic seed inputs for a fuzz target
+            if args.len() < 4 {
+                usage();
+            }
+            let n = verif::fuzzapi::gen_corpus(&args[2], &args[3], engine::default_seed());
+            println!("{} seed inputs written to {}", n, args[3]);
+        }
+        "artifact" => {
+            // verif artifact <target> <crash file>: turn a libFuzzer artefact into a replay file
+            if args.len() < 4 {
+                usage();
+            }
+            match verif::fuzzapi::artifact_to_replay(&args[2], &args[3]) {
+                Some(path) => println!("{}", path),
+                None => {
+                    eprintln!("cannot convert artefact");
+                    std::process::exit(2)
+                }
+            }
+        }
         "replay" => {
             if args.len() < 3 {
                 usage();
